@@ -104,6 +104,8 @@ type ContractSet struct {
 	NonNil  [][2]string // (package, type expression)
 	NonNilFields [][3]string // (package, T.f, kind)
 	NonNilBoxed  [][2]string
+	Frames       []*FrameSpec
+	Guarded      []*FrameSpec
 	Errors  []string
 }
 
@@ -375,6 +377,23 @@ func (cs *ContractSet) parseFile(fset *token.FileSet, f *ast.File, pkgPath, file
 			case "nonnil-elems":
 				// element type invariant: slices of this pointer type never hold nil in bounds
 				cs.NonNil = append(cs.NonNil, [2]string{pkgPath, strings.TrimSpace(rest)})
+			case "guarded":
+				// guarded T.f by m : map field f of T may only be read with mutex field m held (R or W), written with W
+				var props []string
+				t := rest
+				if i := strings.LastIndex(t, "@props "); i >= 0 {
+					props = strings.FieldsFunc(t[i+7:], func(r rune) bool { return r == ',' || r == ' ' })
+					t = strings.TrimSpace(t[:i])
+				}
+				cs.Guarded = append(cs.Guarded, &FrameSpec{Kind: word, Pkg: pkgPath, Text: t, Props: props, Line: l.line, File: fileName})
+			case "reads-covered", "immutable-outside":
+				var props []string
+				t := rest
+				if i := strings.LastIndex(t, "@props "); i >= 0 {
+					props = strings.FieldsFunc(t[i+7:], func(r rune) bool { return r == ',' || r == ' ' })
+					t = strings.TrimSpace(t[:i])
+				}
+				cs.Frames = append(cs.Frames, &FrameSpec{Kind: word, Pkg: pkgPath, Text: t, Props: props, Line: l.line, File: fileName})
 			case "assume-nonnil-boxed":
 				// data assumption: interface values never hold a nil value of this (map/pointer) type
 				cs.NonNilBoxed = append(cs.NonNilBoxed, [2]string{pkgPath, strings.TrimSpace(rest)})
